@@ -37,6 +37,8 @@ func (r *Run) execPseudo(op *OpDesc, c *Call) []*Violation {
 		runtime.GC()
 		r.Stats.Inc("fault/gc/pool-eviction")
 		return nil
+	case "H.Flood":
+		return r.flood(c)
 	case "H.Scribble":
 		return r.scribble(c)
 	case "H.Probe":
